@@ -157,7 +157,9 @@ def tlc(specdir, module, cfg, workers=None, timeout=900, simulate=None, depth=No
         cmd += list(extra)
     cmd.append(module + ".tla")
     env = dict(os.environ)
-    jopts = ["-Xss64m"]
+    jtmp = os.path.join(d, "jtmp")     # TLC leaves an empty tlc-<n> directory per run in java.io.tmpdir
+    os.makedirs(jtmp, exist_ok=True)
+    jopts = ["-Xss64m", "-Djava.io.tmpdir=" + jtmp]
     if deque:
         jopts.append("-Dtlc2.tool.queue.IStateQueue=StateDeque")
     if heap:
